@@ -125,6 +125,15 @@ def _run_task(args):
 
         def do_one(ob):
             # once a task has used its solver budget (only happens when many obligations fail), the rest get short timeouts
+            if ob.kind == "reach":
+                cr, ct = solve.run_cvc5(solve.to_smt2(ob.hyps, ob.goal), 3)
+                if cr != "unsat":
+                    zs = z3.Solver(); zs.set("timeout", 1500); zs.set("smt.mbqi", False)
+                    for h in ob.hyps:
+                        zs.add(h)
+                    cr = "unsat" if zs.check() == z3.unsat else cr
+                return {"name": ob.name, "kind": "reach", "status": "vacuous" if cr == "unsat" else "reachable", "backend": "cvc5/z3", "time": round(ct, 4), "tags": [], "line": None,
+                        "trace": [list(x) for x in ob.trace], "nhyps": len(ob.hyps)}
             over = (time.time() - t_dis) > budget
             solve.discharge(ob, 1500 if over else opts.get("z3_timeout_ms", 10000), 3 if over else opts.get("cvc5_timeout_s", 15),
                             opts.get("cross_check", False) and not over, expect_sat=task.contract.probe, quick_fail=over, cvc5_first=(task.contract.prefer == "cvc5"))
@@ -188,6 +197,18 @@ def _run_task(args):
                 for i, rec in got:
                     allrecs[i] = rec
             out["obligations"] = [allrecs[i] for i in range(len(obs))]
+        reach = [r for r in out["obligations"] if r["kind"] == "reach"]
+        if reach:
+            out["obligations"] = [r for r in out["obligations"] if r["kind"] != "reach"]
+            branch = lambda t: tuple(t) if isinstance(t[1], str) and (t[1] in ("T", "F", "exit") or t[1].startswith("loop#") or t[1].endswith("raises")) else None
+            seen_all, seen_ok = set(), set()
+            for r in reach:
+                bs = {branch(t) for t in r["trace"]} - {None}
+                seen_all |= bs
+                if r["status"] == "reachable":
+                    seen_ok |= bs
+            out["reach"] = {"path_ends": len(reach), "vacuous": sum(r["status"] == "vacuous" for r in reach),
+                            "dead_branches": sorted([list(b) for b in seen_all - seen_ok], key=str)}
     except (Unsupported, SortMismatch) as e:
         out["unsupported"] = str(e)
     except Exception:
